@@ -26,12 +26,18 @@ type c15Tx struct {
 	from  common.Address
 	nonce uint64
 	id    byte
+	utxo  bool // an account-input UTXO-type transaction (it consumes the sender's account nonce like any other)
 }
 
 func (t *c15Tx) Hash() common.Hash             { return common.Hash{0x7A, t.from[0], byte(t.nonce), t.id} }
 func (t *c15Tx) From() (common.Address, error) { return t.from, nil }
 func (t *c15Tx) Nonce() uint64                 { return t.nonce }
-func (t *c15Tx) TypeName() string              { return types.TxNormal }
+func (t *c15Tx) TypeName() string {
+	if t.utxo {
+		return types.TxUTXO
+	}
+	return types.TxNormal
+}
 func (t *c15Tx) Gas() uint64                   { return 21000 }
 func (t *c15Tx) GasPrice() *big.Int            { return big.NewInt(1) }
 func (t *c15Tx) Value() *big.Int               { return big.NewInt(0) }
@@ -223,4 +229,38 @@ func H_C15_sorted_map_ready_and_forward() {
 		verifAssert(len(removed) == cnt, "forward-returns-what-it-removed")
 	}
 	verifAssert(m.Len() == len(*m.index), "heap-and-map-in-bijection")
+}
+
+
+// What Reap offers for the next block is a PREFIX of the executable list: the list is kept gap-free per
+// sender from the committed nonce on (the Update harness above), so any prefix is; leaving a
+// transaction out and offering later ones of the same sender would put a nonce gap into the block.
+// Real code: Reap / collectTxs over a clist of four executables of one sender (nonces 0..3), each an
+// ordinary or an account-input UTXO-type transaction, with arbitrary block size and UTXO quota.
+//verif:opt unwind=16 budget_s=600 split=8
+func H_C15_reap_offers_a_prefix_of_the_executables() {
+	app := &c15App{committed: map[common.Address]uint64{}, spec: map[common.Address]uint64{}}
+	mem := c15Pool(app, 8)
+	const n = 4
+	var all []*c15Tx
+	for i := 0; i < n; i++ {
+		tx := &c15Tx{from: c15A, nonce: uint64(i), id: byte(i), utxo: verifNondetBool()}
+		all = append(all, tx)
+		mem.goodTxs.PushBack(&mempoolTx{tx: tx})
+	}
+	mem.config.MaxReapSize = 1 + verifCase(5)
+	mem.config.UTXOSize = 1 + verifCase(3)
+	mem.config.SpecSize = 2
+	max := verifCase(7) - 1 // -1 .. 5
+	got := mem.Reap(max)
+	verifReach("reaped")
+	verifAssert(len(got) <= n, "reap-offers-nothing-twice")
+	if max > 0 {
+		verifAssert(len(got) <= max && len(got) <= mem.config.MaxReapSize, "reap-respects-the-block-size")
+	} else {
+		verifAssert(len(got) == 0, "reap-of-nothing-offers-nothing")
+	}
+	for i, tx := range got {
+		verifAssert(tx.(*c15Tx) == all[i], "reap-offers-a-prefix-of-the-executables")
+	}
 }
